@@ -17,6 +17,10 @@ CLAIMS = {
    text="Structural clauses of 'client arguments reach the backend intact', for all commands, option structs and handlers: field-read coverage of every option struct below every client command method (195 field instances); keyword round trip between the tables extracted from the client's encoders and the paired server switches (42 token/field pairs incl. search keys); command-name table against the server's dispatch switch; no swallowed parse failure on any failure path of the server's parsers (167 paths); search-key accumulation discipline; operand plumbing from the decoded locals to each session call in wire order with the UID number kind. 'other': necessary conditions checked exhaustively over the code; value equality of arbitrary strings/sets after transport is not decided.",
    technique="type-directed field-coverage and table-agreement rules over the typed AST, error-discipline and value-provenance dataflow over go/ssa",
    design="§4 C02"),
+ "C03": dict(
+   text="Structural clauses of 'responses are decoded into what the backend supplied': field coverage of every response data struct on both sides (158 field/side instances: read by a server writer, stored by a client parser); keyword round trip in the response direction between the server's writers and the paired client switches (STATUS items, ESEARCH items, APPENDUID/COPYUID codes, LIST extended items); token coverage of response names and FETCH item names against the client's parser cases, restricted to what commands the client can issue; '[' consumed before every section parse; provenance of the server's output modes (UTF-8 quoting, legacy SEARCH/RECENT forms). 'other': necessary conditions over all fields/tokens/sites; equality of arbitrary nested payloads and literal byte identity are not decided.",
+   technique="type-directed field-coverage and table-agreement rules over the typed AST and go/ssa, must-pass-through gates, value-provenance of mode flags",
+   design="§4 C03"),
  "C04": dict(
    text="Structural clauses of server command framing, for all paths: exactly one tagged completion per dispatched command (count of tag-carrying writer calls per path against the nil-ness of the returned error, in readCommand and every self-completing handler, with lemma L1 on the decoder proved on every run); a literal opened on the server decoder is drained, refused only when known synchronising, or refused with the connection terminated, and a refusal puts the decoder in its error state (interprocedural through the CheckBufferedLiteralFunc callback and helper summaries); continuation requests only from literal acceptance/IDLE/AUTHENTICATE after their gates; response-encoder (write lock) pairing and exclusive access to the connection's writer; line discard before completion. 'other': necessary structural conditions, not a proof that the tokenizer never mis-splits bytes.",
    technique="path-sensitive must/may dataflow over go/ssa (completion counting x error nil-ness, literal typestate with interprocedural refusal summaries), who-may-call and acquire/release pairing rules",
